@@ -884,3 +884,82 @@ def loop_relation(body, header, program=None, **kw):
     def sym(l):
         return ("L", l)
     return e.run(start=header, sym=sym)
+
+
+# --------------------------------------------------------------------------
+# summaries through loops
+# --------------------------------------------------------------------------
+def loop_assigned_locals(body, header):
+    """locals that may change inside the natural loop of `header` (assigned, call dest, or &mut-borrowed)"""
+    blocks = body.loops()[header]
+    out = set()
+    for b in blocks:
+        blk = body.blocks[b]
+        for st in blk["stmts"]:
+            if st["k"] == "assign":
+                out.add(st["place"]["l"])
+                rv = st["rv"]
+                if rv["k"] in ("ref", "rawptr") and rv.get("mut"):
+                    out.add(rv["place"]["l"])
+            elif st["k"] == "setdiscr":
+                out.add(st["place"]["l"])
+        t = blk["term"]
+        if t["k"] == "call":
+            out.add(t["dest"]["l"])
+        if t["k"] == "drop":
+            out.add(t["place"]["l"])
+    return out
+
+
+def through_loops(body, program=None, **kw):
+    """Paths entry -> return/panic where every loop is abstracted: after a loop header is reached, execution
+    resumes *at the header* with loop-modified locals replaced by fresh symbols ('L', n) and all other locals
+    keeping their pre-loop terms (they are loop invariant by construction).  Loop back edges are dropped, so
+    each result path describes: straight-line prefix, then "some iterations", then one exit path of the loop.
+    Returns (paths, n_headers_crossed_max).  Nested / sequential loops are handled by recursion."""
+    opts = Options(program=program, **kw)
+    results = []
+    budget = [opts.max_paths]
+
+    def entry_sym(l, _n=body.arg_count):
+        return ("p", l) if 1 <= l <= _n else ("uninit", l)
+
+    def run_from(start, env, conds, events, assumed, first, depth, symf=entry_sym):
+        e = Enumerator(body, opts)
+        loc = dict(env)
+        e.run(start=start, sym=symf, init_env=loc)
+        for p in e.paths:
+            budget[0] -= 1
+            if budget[0] < 0:
+                raise TooManyPaths(body.path)
+            allc = list(conds)
+            dead = False
+            for c in p.conds:
+                if contradicts(allc, c):
+                    dead = True
+                    break
+                if c not in allc:
+                    allc.append(c)
+            if dead:
+                continue
+            ev = tuple(events) + p.events
+            asm = tuple(dict.fromkeys(tuple(assumed) + p.assumed))
+            if p.kind == "cut":
+                h = p.value
+                if h == start and not first:
+                    # back edge of the loop we are abstracting: the iteration relation, not part of the summary
+                    continue
+                if depth >= 6:
+                    results.append(Path(tuple(allc), "other", ("loop-depth",), ev, p.env, p.heap, p.end, p.blocks, asm))
+                    continue
+                changed = loop_assigned_locals(body, h)
+                inv_env = {l: v for l, v in p.env.items() if l not in changed}
+
+                def symf2(l, _c=changed, _prev=symf):
+                    return ("L", l) if l in _c else _prev(l)
+                run_from(h, inv_env, allc, ev + (("loop", h),), asm, False, depth + 1, symf2)
+            else:
+                results.append(Path(tuple(allc), p.kind, p.value, ev, p.env, p.heap, p.end, p.blocks, asm))
+
+    run_from(0, {}, [], (), (), True, 0)
+    return results
